@@ -47,6 +47,8 @@ def families(tier):
                                                                                    ['Injection Reservoir Inflation Rate', '100'], ['Gradient 1', '65']])
     # absorption chiller: several outputs are the same array under two names (heat produced = heat extracted)
     f['res4-chiller-econ1'] = gen.merge(gen.RES4, gen.CHILLER, gen.ECON['1'], [['Maximum Drawdown', '0.05']])
+    # an input without a 'Print Output to Console' line (the shipped Fervo / SHR examples have none): directives must work alike
+    f['res3-heat-econ2-no-console-line'] = gen.drop_param(f['res3-heat-econ2'], 'Print Output to Console')
     if tier == 'thorough':
         f.update({'res1-cogen31p1-econ3': gen.merge(gen.RES1, gen.COGEN(31, 1), gen.ECON['3']),
                   'res4-heatpump-econ1': gen.merge(gen.RES4, gen.HEATPUMP, gen.ECON['1'], [['Heat Pump Capital Cost', '4']]),
@@ -61,8 +63,8 @@ def plan(tier, seed, shards):
     per = max(1, shards // len(fams)) if tier == 'quick' else 6
     for f in fams:
         for i in range(per):
-            if tier == 'quick' and f == 'res4-chiller-econ1':
-                continue  # quick: this family only on the output-directive side
+            if f == 'res3-heat-econ2-no-console-line' or (tier == 'quick' and f == 'res4-chiller-econ1'):
+                continue  # these families only on the output-directive side
             specs.append({'kind': 'input', 'family': f, 'part': i, 'parts': per, 'tier': tier, 'seed': seed})
         for i in range(max(1, per // 2)):
             specs.append({'kind': 'output', 'family': f, 'part': i, 'parts': max(1, per // 2), 'tier': tier, 'seed': seed})
